@@ -52,6 +52,10 @@ func c01GrpcErr(class string) error {
 		return fmt.Errorf("wrapped: %w", context.DeadlineExceeded)
 	case class == "canceled":
 		return context.Canceled
+	case class == "wcanceled":
+		return fmt.Errorf("wrapped: %w", context.Canceled)
+	case class == "wother":
+		return fmt.Errorf("wrapped: %w", errors.New("c01 other"))
 	case class == "brkopen":
 		return breaker.ErrServiceUnavailable
 	case class == "wbrkopen":
@@ -69,9 +73,11 @@ func (c01OKErr) GRPCStatus() *status.Status { return status.New(codes.OK, "c01")
 
 func TestVerifC01ZrpcClient(t *testing.T) {
 	spec := verifc01.SiteSpec{Site: "zclient",
-		Good: []string{"nil", "g0", "g1", "g2", "g3", "g5", "g6", "g7", "g9", "g10", "g11", "g16", "gw5", "other", "deadline",
-			"wdeadline", "canceled", "brkopen", "wbrkopen"},
-		Bad: []string{"g4", "g8", "g12", "g13", "g14", "g15", "gw13", "gw4"}}
+		// every code 0..17, bare and wrapped with %w; every sentinel the server side mentions, bare and wrapped
+		Good: []string{"nil", "g0", "g1", "g2", "g3", "g5", "g6", "g7", "g9", "g10", "g11", "g16", "g17",
+			"gw1", "gw2", "gw3", "gw5", "gw6", "gw7", "gw9", "gw10", "gw11", "gw16", "gw17", "other", "wother", "deadline",
+			"wdeadline", "canceled", "wcanceled", "brkopen", "wbrkopen"},
+		Bad: []string{"g4", "g8", "g12", "g13", "g14", "g15", "gw4", "gw8", "gw12", "gw13", "gw14", "gw15"}}
 	verifc01.Run(t, verifc01.Gen([]verifc01.SiteSpec{spec}, true), func(named bool) verifc01.Env {
 		sec := c01ZcSeq.Add(1)
 		method := func(name string) string { return fmt.Sprintf("/c01.zc%d/%s", sec, name) }
